@@ -46,8 +46,10 @@ def eq_elem(got, exp, eq=same):
 
 def close(a, b, tol=1e-9):
     if isinstance(a, (P, R)) or isinstance(b, (P, R)):
-        if isinstance(a, P) and isinstance(b, P):
-            return a.close(b, tol)
+        if not isinstance(a, R) and not isinstance(b, R):
+            a2, b2 = P.lift(a), P.lift(b)
+            if a2 is not NotImplemented and b2 is not NotImplemented:
+                return a2.close(b2, tol)
         return same(a, b)
     try:
         if hasattr(a, 'shape') or hasattr(b, 'shape'):
